@@ -17,7 +17,8 @@
    Variant selects broken encoders TLC must reject:
      "nolen"   strings written without their length
      "notag"   ints written without the trailing 'i'
-     "nosort"  dict items written in insertion order                                  *)
+     "nosort"  dict items written in insertion order
+     "backslashreplace"  the key encoded with ('ascii', 'backslashreplace') instead of UTF-8  *)
 EXTENDS Integers, Sequences, FiniteSets, TLC
 
 CONSTANTS Variant
@@ -110,4 +111,39 @@ UnKey(key) == LET f3 == SplitNul(key)                 \* ver, vvm, preamble are 
               IN [preamble |-> f3[3], kwds |-> p.val,
                   sources |-> IF p.rest = <<>> THEN <<>> ELSE SplitNul(Tail(p.rest)),
                   ok |-> p.ok /\ (p.rest = <<>> \/ Head(p.rest) = NUL)]
+
+\* ---------------------------------------------------------------- the bytes that are hashed
+\* verifier.py:57  key = key.encode('utf-8'); the two CRC32 halves are taken over these BYTES, so the
+\* encoding step must be injective too.  (Non-recursive: keys are thousands of characters long.)
+Utf8(c) == IF c < 128 THEN <<c>>
+           ELSE IF c < 2048 THEN <<192 + (c \div 64), 128 + (c % 64)>>
+           ELSE IF c < 65536 THEN <<224 + (c \div 4096), 128 + ((c \div 64) % 64), 128 + (c % 64)>>
+           ELSE <<240 + (c \div 262144), 128 + ((c \div 4096) % 64), 128 + ((c \div 64) % 64), 128 + (c % 64)>>
+HexDigit(d) == IF d < 10 THEN 48 + d ELSE 87 + d                           \* lower-case hex, as Python prints it
+RECURSIVE Hex(_, _)
+Hex(n, width) == IF width = 0 THEN <<>> ELSE Hex(n \div 16, width - 1) \o <<HexDigit(n % 16)>>
+\* broken variant: key.encode('ascii', 'backslashreplace')
+BackslashReplace(c) == IF c < 128 THEN <<c>>
+                       ELSE IF c < 256 THEN <<92, 120>> \o Hex(c, 2)         \* \xNN
+                       ELSE IF c < 65536 THEN <<92, 117>> \o Hex(c, 4)       \* \uNNNN
+                       ELSE <<92, 85>> \o Hex(c, 8)                          \* \UNNNNNNNN
+EncodeChar(c) == IF Variant = "backslashreplace" THEN BackslashReplace(c) ELSE Utf8(c)
+\* the byte string that is hashed; divide and conquer keeps the recursion depth logarithmic
+RECURSIVE EncodeRange(_, _, _)
+EncodeRange(s, lo, hi) == IF lo > hi THEN <<>>
+                          ELSE IF lo = hi THEN EncodeChar(s[lo])
+                          ELSE LET mid == (lo + hi) \div 2 IN EncodeRange(s, lo, mid) \o EncodeRange(s, mid + 1, hi)
+Encode(s) == EncodeRange(s, 1, Len(s))
+\* UTF-8 decoder (witness that the faithful encoding step is injective)
+Utf8Len(b) == IF b < 128 THEN 1 ELSE IF b < 224 THEN 2 ELSE IF b < 240 THEN 3 ELSE 4
+RECURSIVE Utf8Dec(_)
+Utf8Dec(bs) ==
+    IF bs = <<>> THEN <<>>
+    ELSE LET n == Utf8Len(bs[1])
+             c == IF n = 1 THEN bs[1]
+                  ELSE IF n = 2 THEN (bs[1] - 192) * 64 + (bs[2] - 128)
+                  ELSE IF n = 3 THEN (bs[1] - 224) * 4096 + (bs[2] - 128) * 64 + (bs[3] - 128)
+                  ELSE (bs[1] - 240) * 262144 + (bs[2] - 128) * 4096 + (bs[3] - 128) * 64 + (bs[4] - 128)
+         IN <<c>> \o Utf8Dec(SubSeq(bs, n + 1, Len(bs)))
+KeyBytes(ver, vvm, preamble, kwds, sources) == Encode(Key(ver, vvm, preamble, kwds, sources))
 =============================================================================
